@@ -19,7 +19,12 @@
                      fragment is not re-checked; RuntimeError when the first NLRI of an MP attribute
                      does not fit what is left; the last IPv4 message is repeated inside the first
                      MP message)
-     fixed = true  : the tree with the proposed patch (see the comments marked PATCH). *)
+     fixed = true  : the tree with the proposed patch (see the comments marked PATCH):
+                     re-check after each flush, return instead of raise, nothing repeated, the pending
+                     MP_REACH sent first when it cannot share a message with the first MP_UNREACH, no
+                     attributes-only message when nothing of a family could be packed.
+   The theorems (Proofs_Split, Prop_C09) are about fixed = true; the fixed = false instances are the
+   machine-checked witnesses of D12. *)
 From Coq Require Import ZArith List Bool.
 From ExaV Require Import spec.Spec_Split.
 Import ListNotations.
